@@ -82,8 +82,10 @@ fn gen_message(rng: &mut Rng, tagn: &mut u32, scope: &str, depth: usize, out: &m
 }
 
 fn gen_file(rng: &mut Rng, idx: usize, tagn: &mut u32) -> GenFile {
-    let pkg = match rng.below(4) {
+    let pkg = match rng.below(5) {
         0 => None,
+        // present but empty: what a descriptor built by hand or by another tool may carry
+        4 => Some(String::new()),
         1 => Some(format!("p{}", idx)),
         2 => Some(format!("p{}.q", idx)),
         _ => Some(format!("org.p{}.v1", idx)),
